@@ -162,6 +162,19 @@ def run_exact(chk: Check, cases, with_gen: bool):
                     chk.disagree(f"Gen.Aggr.add vs Aggregates.__add__ ({lab})",
                                  dict(input=inp, model=str(exp), impl=str(got)))
                     break
+        # --- augmented assignment: `total = a; total += b` gives a + b and leaves the object `a` the caller still holds
+        # (and the dicts it was built from) as they were
+        Ai, Bi = mk_real(*r["a1"]), mk_real(*r["a2"])
+        snap = (flat(nm, Ai), flat(nm, Bi))
+        total = Ai
+        try:
+            total += Bi
+            if flat(nm, total) != want or (flat(nm, Ai), flat(nm, Bi)) != snap:
+                chk.fail("`total = a; total += b` is not a + b, or it changed the operand `a` / `b` the caller still holds",
+                         dict(input=inp, total=[str(v) for _, v in flat(nm, total)][:6],
+                              a_after=[str(v) for _, v in flat(nm, Ai)][:6], a_before=[str(v) for _, v in snap[0]][:6]))
+        except Exception as ex:  # noqa: BLE001
+            chk.fail("`total += b` raised", dict(input=inp, error=repr(ex)))
         # --- commutativity / associativity on the real code
         st2, ba = real_call(lambda: A2 + A1)
         if st2 != "ok" or flat(nm, ba) != real:
